@@ -61,6 +61,8 @@ def evaluate(doc, tokens):
         elif isinstance(doc, list):
             if not _INDEX.match(tok):
                 raise PointerError("not an array index: %r" % (tok,))
+            if len(tok) > 18:
+                raise PointerError("index out of range")      # no in-memory array is that long
             i = int(tok)
             if i >= len(doc):
                 raise PointerError("index out of range")
